@@ -257,12 +257,94 @@ class Executor:
                     return role
                 if name in cur.defs:
                     return ("func", cur.defs[name], mod)
+                d = self._free_def(mod, cur, name)
+                if d is not None:
+                    return d
                 return ("free", name, cur.qualname)
             cur = cur.parent
         b = mod.bindings.get(name)
         if b is not None:
             return self._global_term(mod, name)
         return ("builtin", name)
+
+    # constants of enclosing scopes: a local of an enclosing function that is assigned exactly once, with a pure
+    # expression over parameters / constants / other such locals (window_span = window - 1, last_branch = n - 1,
+    # is_joined = zip is True or combine is True), is replaced by that expression
+    def _free_def(self, mod, scope, name, depth=0):
+        cache = self.__dict__.setdefault("_free_defs", {})
+        key = (id(scope.node), name)
+        if key in cache:
+            return cache[key]
+        cache[key] = None
+        if depth > 4:
+            return None
+        assigns = []
+        stack = list(scope.node.body) if not isinstance(scope.node, ast.Lambda) else []
+        while stack:
+            n = stack.pop()
+            if isinstance(n, (ast.FunctionDef, ast.AsyncFunctionDef, ast.Lambda, ast.ClassDef)):
+                continue
+            if isinstance(n, ast.Assign):
+                for t in n.targets:
+                    for x in ast.walk(t):
+                        if isinstance(x, ast.Name) and x.id == name:
+                            assigns.append(n if (len(n.targets) == 1 and isinstance(n.targets[0], ast.Name)) else None)
+            elif isinstance(n, (ast.AugAssign, ast.AnnAssign, ast.For, ast.With, ast.NamedExpr)):
+                tgt = getattr(n, "target", None)
+                for x in ([tgt] if tgt is not None else []):
+                    for y in ast.walk(x):
+                        if isinstance(y, ast.Name) and y.id == name:
+                            assigns.append(None)
+            for c in ast.iter_child_nodes(n):
+                stack.append(c)
+        # nested functions may rebind it through nonlocal
+        for n in ast.walk(scope.node):
+            if isinstance(n, ast.Nonlocal) and name in n.names:
+                return None
+        if len(assigns) != 1 or assigns[0] is None:
+            return None
+        # only top-level statements of the scope (not under if/for/try) are unconditional
+        if assigns[0] not in scope.node.body:
+            return None
+        t = self._pure_term(mod, scope, assigns[0].value, depth)
+        cache[key] = t
+        return t
+
+    def _pure_term(self, mod, scope, node, depth):
+        if isinstance(node, ast.Constant):
+            return const(node.value)
+        if isinstance(node, ast.Name):
+            cur = scope
+            while cur is not None:
+                if node.id in cur.params:
+                    role = self.spec.roles.get((node.id, cur.qualname))
+                    return role if role is not None else ("param", node.id, cur.qualname)
+                if node.id in cur.locals and node.id not in cur.nonlocals:
+                    if node.id in cur.defs:
+                        return None
+                    d = self._free_def(mod, cur, node.id, depth + 1)
+                    return d if d is not None else ("free", node.id, cur.qualname)
+                cur = cur.parent
+            return None
+        if isinstance(node, ast.BinOp):
+            a, b = self._pure_term(mod, scope, node.left, depth), self._pure_term(mod, scope, node.right, depth)
+            return None if a is None or b is None else ("binop", type(node.op).__name__, a, b)
+        if isinstance(node, ast.UnaryOp):
+            a = self._pure_term(mod, scope, node.operand, depth)
+            if a is None:
+                return None
+            if isinstance(node.op, ast.Not):
+                return ("not", a)
+            if isinstance(node.op, ast.USub) and a[0] == "const" and isinstance(a[1], (int, float)):
+                return const(-a[1])
+            return ("unop", type(node.op).__name__, a)
+        if isinstance(node, ast.BoolOp):
+            vals = [self._pure_term(mod, scope, v, depth) for v in node.values]
+            return None if any(v is None for v in vals) else ("boolop", "and" if isinstance(node.op, ast.And) else "or") + tuple(vals)
+        if isinstance(node, ast.Compare) and len(node.ops) == 1:
+            a, b = self._pure_term(mod, scope, node.left, depth), self._pure_term(mod, scope, node.comparators[0], depth)
+            return None if a is None or b is None else ("cmp", CMP_NAMES[type(node.ops[0])], a, b)
+        return None
 
     def _global_term(self, mod, dotted):
         ref = self.program.resolve_dotted(mod, dotted)
